@@ -127,7 +127,10 @@ impl SimpleMdnsResponder {
                                 scope.socket_address()
                             };
 
-                            sender_socket.send_to(&reply, reply_addr).await?;
+                            // a reply that can't be sent must not stop the responder
+                            if let Err(err) = sender_socket.send_to(&reply, reply_addr).await {
+                                log::error!("Failed to send reply {err}");
+                            }
                         }
                         None => {
                             continue;
